@@ -213,3 +213,28 @@ Definition sparse_sorted_b (r : trec) : bool :=
   | None => false
   end &&
   match t_amplitude r with a0 :: _ => forallb (fun a => a <=? a0) (t_amplitude r) | [] => true end.
+
+(* ---- the comparator's tie tests (Corr.v code 1): where they hold, the model's record is the same for every
+   argsort oracle (C05_dense_tie_test_sufficient / C05_sparse_tie_test_sufficient), so equality with the model run
+   under one oracle is demanded exactly where it is justified ------------------------------------------------- *)
+Fixpoint nodupZ_b (l : list Z) : bool :=
+  match l with [] => true | x :: r => negb (existsb (Z.eqb x) r) && nodupZ_b r end.
+(* is the set of the n nearest channels of b determined (no distance tie across the neighbourhood boundary)? *)
+Definition nearest_determined (P : list pos) (b : nat) (n : Z) : bool :=
+  let nc := length P in
+  let all := seq 0 nc in
+  let dist := chan_dist P b in
+  let k := if n =? 0 then Z.of_nat nc else Z.min n (Z.of_nat nc) in
+  (k =? Z.of_nat nc) ||
+  existsb (fun c => countb (fun a => dist a <=? dist c) all =? k) all.
+
+(* ---- get_cluster_channels: the template a cluster's channels are taken from ---------------------------------- *)
+(* the templates (spike_templates) of the spikes of cluster cid, one entry per spike *)
+Definition cluster_templates (st : list nat) (sc : list Z) (cid : Z) : list nat :=
+  map fst (filter (fun p => snd p =? cid) (combine st sc)).
+(* tid is the template with the most spikes among the cluster's spikes, the smallest id among equally frequent ones *)
+Definition Main_template (st : list nat) (sc : list Z) (cid : Z) (tid : nat) : Prop :=
+  let sel := cluster_templates st sc cid in
+  In tid sel /\
+  (forall t, count_nat t sel <= count_nat tid sel) /\
+  (forall t, count_nat t sel = count_nat tid sel -> (tid <= t)%nat).
